@@ -343,6 +343,21 @@ def stepMetric : List String → String
       | .err => "err"
       | .panic => "panic"
     | none => "bad-op"
+  | ["pdesc", pv] =>
+    -- one step down from a received property value (`impl TryFrom<PropertyValueValue> for PropertySet`
+    -- and `… for PropertySetList`): what `hostDescend` of the C12 nested-set theorems is built on
+    match (parseTree pv).bind pPVal with
+    | some v =>
+      let a := match setOfValue v with
+        | .ok m => "ok " ++ sPSet (hmapToPayload m)
+        | .err => "err"
+        | .panic => "panic"
+      let b := match setsOfValue v with
+        | .ok l => "ok " ++ node "pl" (l.map fun m => sPSet (hmapToPayload m))
+        | .err => "err"
+        | .panic => "panic"
+      "set:" ++ a ++ " sets:" ++ b
+    | none => "bad-op"
   | ["e2e", who, variant, prevseq, now, l] =>
     match prevseq.toNat?, now.toNat? with
     | some prevseq, some now =>
